@@ -68,6 +68,11 @@ CHECKS.update({
          "Driven SimpleDB sessions with >=40 cycles are censused at every quiescent point (descriptors <= 4, mappings <= live tables + 3) and after Close (nothing left, no library goroutine, re-Open and RemoveAll work); live sessions are closed while a compaction is held in flight at a hook point; table and RecordIO readers/writers (incl. failed Opens and abandoned scans) must return to the baseline after Close.",
          "Linux /proc is the ground truth; goroutine attribution by stack frames", "§3 C19", "E5"),
 })
+CHECKS.update({
+ "C02": ("fault_enumeration", "offline checker over recorded system-call logs: strace -f trace of real sessions -> in-memory file-system replay -> crash image at every mutating call (+ unlink-order permutations) -> fresh-process Open + read-all compared with the acknowledged-operations model",
+         "Whole sessions (open, operations, size-triggered and forced rotations, background flushes and compactions, close, reopen) run under strace with INV/ACK markers in the same log; every boundary between two file-system-mutating system calls of any thread is turned into a directory image (fidelity self-check: final replayed image == real directory) and every distinct image is recovered by a fresh process; Open must succeed and each key must read model(acked) or model(acked + in-flight op). Enumerates every crash point of the traced executions; sessions/schedules are sampled.",
+         "kill -9 model (completed system calls retained, single write not torn); schedules are those that occurred under strace; other listing orders emulated for unlink runs only", "§2.2, §3 C02", "E2"),
+})
 NOT_YET = {}
 props = [json.loads(l) for l in open(os.path.join(ROOT, "properties.jsonl"))]
 hooks_commits = []
@@ -110,6 +115,7 @@ m = {
  },
  "engines": [
    {"name": "E1", "path": "/verif/internal/props", "kind_free_text": "reference-model monitors shadowing real API calls, seeded case lists, child processes"},
+   {"name": "E2", "path": "/verif/internal/strace + /verif/internal/props/e2.go", "kind_free_text": "strace log parser, file-system replayer, crash-image materialiser, recovery oracle in sub-processes"},
    {"name": "E3", "path": "/verif/internal/props/c05.go", "kind_free_text": "history recorder + porcupine linearizability checker"},
    {"name": "E4", "path": "/verif/internal/props/c18.go", "kind_free_text": "race-detector runner: -race child, GORACE log parsing, report de-duplication"},
    {"name": "E5", "path": "/verif/internal/props/c19.go", "kind_free_text": "resource census (/proc fds, maps, goroutine dump)"},
